@@ -641,6 +641,11 @@ class StmtMixin:
         """for x in <unmodelled iterable>: an unknown number of iterations over arbitrary elements.  Cut with the
         invariant `the fields outside spec.modifies are unchanged` (checked at the end of the body)."""
         L = f"L{s.lineno}"
+        # invariants of a loop over an unmodelled iterable may not mention the index or the iterated sequence (k, it): they are
+        # proved on entry, assumed at the cut, and proved again at the end of every body path
+        entry_heap = (dict(p.heap), p.epoch)
+        for idx, inv in enumerate(spec.invariant or []):
+            self.oblige(p, self.spec_bool(inv, p, {}), "inv-init", f"{L}#{idx}")
         targets = self.assigned_names(s.body) | (self.assigned_names([s]) - self.assigned_names(s.orelse))
         for name in targets:
             cur = p.frame.lookup(name)
@@ -652,6 +657,8 @@ class StmtMixin:
                 p.frame_for_store(name).locals[name] = VOpaque(f"loop-carried {name}")
         self.havoc_for_spec(p, spec.modifies)
         havoc_heap = dict(p.heap)
+        for inv in (spec.invariant or []):
+            p.assume(self.spec_bool(inv, p, {}))
         if self._body_may_dirty(p, s):
             # earlier iterations may already have touched IR state
             p.ghost["$ir_dirty"] = p.ghost.get("$ir_dirty") or f"an earlier iteration of the loop at {L}"
@@ -667,6 +674,8 @@ class StmtMixin:
                 for q2, oc2 in self.ex(s.body, q):
                     if oc2 is NEXT or oc2[0] == "continue":
                         self.check_loop_frame(q2, spec, havoc_heap, L)
+                        for idx, inv in enumerate(spec.invariant or []):
+                            self.oblige(q2, self.spec_bool(inv, q2, {}), "inv-step", f"{L}#{idx}")
                         self.terminal(q2, f"loop-end {L}")
                     elif oc2[0] == "break":
                         self.check_loop_frame(q2, spec, havoc_heap, L)
